@@ -306,12 +306,12 @@ class HostCase:
                 eio = r.d.eio
                 orig = eio.send_packet
                 if r.d.is_async:
-                    cancelled = rng.random() < 0.5
-
+                    # (an Exception: a CancelledError raised by a send that
+                    # the listener task awaits directly *is* the cancellation
+                    # of the listener; cancelled sends are injected where
+                    # sends run in tasks of their own, see
+                    # step_emit_with_failing_send)
                     async def boom2(*a, **k):
-                        if cancelled:
-                            # the send to this recipient is cancelled
-                            raise asyncio.CancelledError()
                         raise RuntimeError('injected send failure')
                 else:
                     def boom2(*a, **k):
